@@ -235,6 +235,38 @@ class XEvaluator(Evaluator):
         self._global_cache[key] = v
         return v
 
+    def _module_level_fill(self, name: str, mod, value):
+        """A module-level container that is filled by top-level statements after its assignment (`T = {}` followed by
+        `for k, vs in OTHER.items(): ... T.setdefault(...)`): those statements are executed once, in module scope."""
+        if not isinstance(value, (dict, list, set)):
+            return value
+        body = mod.tree.body
+        start = None
+        for i, st in enumerate(body):
+            if isinstance(st, (ast.Assign, ast.AnnAssign)) and any(
+                    isinstance(t, ast.Name) and t.id == name for t in (st.targets if isinstance(st, ast.Assign) else [st.target])):
+                start = i
+        if start is None:
+            return value
+
+        def touches(st):
+            for n in ast.walk(st):
+                if isinstance(n, ast.Name) and n.id == name:
+                    p_ = getattr(n, "_sa_parent", None)
+                    if isinstance(p_, ast.Attribute) or isinstance(p_, ast.Subscript) or isinstance(p_, ast.AugAssign):
+                        return True
+            return False
+        later = [st for st in body[start + 1:] if isinstance(st, (ast.For, ast.While, ast.If, ast.Expr, ast.AugAssign, ast.With))
+                 and touches(st)]
+        if not later:
+            return value
+        self._global_cache[(mod.rel, name)] = value
+        env = Env()
+        env[name] = value
+        for st in later:
+            self.stmt(st, env)
+        return env.get(name, value)
+
     def _resolve_global(self, name: str, mod):
         if (mod.dotted, name) in self.origins:
             return self.origins[(mod.dotted, name)]
@@ -248,7 +280,8 @@ class XEvaluator(Evaluator):
                 self.mod_stack.append(mod)
                 self.fn_stack.append(None)
                 try:
-                    return self.expr(vals[0], Env())
+                    v0 = self.expr(vals[0], Env())
+                    return self._module_level_fill(name, mod, v0)
                 except Unsupported:
                     return Opaque(f"{mod.rel}:{name}")
                 finally:
